@@ -1,22 +1,52 @@
 (* C01.v — List and Array behave as an ordinal-indexed sequence under every history
    Statements only: every theorem is closed by [exact] of a lemma proved elsewhere, and its
-   axioms are printed.  Generated once by tools/mkprop.py from the proved lemmas' statements. *)
-From Verif Require Import Base Seq ListImpl ListMachine SeqProofs.
+   axioms are printed.  Generated once by tools/mkprop.py from the proved lemmas' statements. 
+   Round 2 (polish): an [Example] of non-vacuity beside every theorem (data in SeqProofs2.v), and the
+   theorems from C01_append_locality on (SeqProofs2.v): locality and conservation for the remaining
+   mutating operations, exact forms of the range operations, panic conditions of every indexed call,
+   read-only operations, sizes, receiver-aliased operands. *)
+From Verif Require Import Base Seq ListImpl ListMachine SeqProofs SeqProofs2.
 
 Theorem C01_history_refinement :
   forall (A : Type) (zero : A) (eqb : A -> A -> bool) (ops : list (lop A)) (l : list A),
          lrun (lstep_impl zero eqb) l ops = lrun (lstep_spec zero eqb) l ops.
 Proof. exact C01_refines. Qed.
 
+(* non-vacuity: the 12-step history ex_lops on [10;20;30] — receiver-aliased InsertValues (the list
+   inserted into itself at slot 1), SetValues and AppendValues with the receiver as operand, negative
+   indices, an empty operand, the empty range (3,2), the inverted range (4,2), a slot past the end and
+   index 0 — run on the loop-shaped machine and on the specification *)
+Example C01_history_refinement_example :
+  lrun (lstep_impl 0%Z Z.eqb) ex_list ex_lops = ([10; 30; 10; 30]%Z,
+      [LUnit; LVal Z 30%Z; LVals Z [10; 20; 30; 20]%Z; LPanic; LUnit; LPanic; LUnit; LPanic;
+       LNat Z 2; LBool Z true; LVals Z []; LPanic]) /\
+  lrun (lstep_spec 0%Z Z.eqb) ex_list ex_lops = lrun (lstep_impl 0%Z Z.eqb) ex_list ex_lops.
+Proof. split; [vm_compute; reflexivity|]. symmetry. apply C01_history_refinement. Qed.
+
 Theorem C01_every_call_returns :
   forall (A : Type) (zero : A) (eqb : A -> A -> bool) (ops : list (lop A)) (l : list A),
          ~ In LHang (snd (lrun (lstep_spec zero eqb) l ops)).
 Proof. exact C01_no_hang. Qed.
 
+Example C01_every_call_returns_example :
+  ~ In LHang (snd (lrun (lstep_impl 0%Z Z.eqb) ex_list ex_lops)) /\
+  length (snd (lrun (lstep_impl 0%Z Z.eqb) ex_list ex_lops)) = 12.
+Proof.
+  split; [|vm_compute; reflexivity]. rewrite C01_history_refinement. apply C01_every_call_returns.
+Qed.
+
 Theorem C01_panic_leaves_unchanged :
   forall (A : Type) (zero : A) (eqb : A -> A -> bool) (l : list A) (o : lop A) (l' : list A),
          lstep_spec zero eqb l o = (l', LPanic) -> l' = l.
 Proof. exact C01_panic_frame. Qed.
+
+(* non-vacuity: four panicking calls (block that does not fit, index 0, inverted range, slot past the end) *)
+Example C01_panic_leaves_unchanged_example :
+  lstep_spec 0%Z Z.eqb ex_list (LSetValues Z 2 None) = (ex_list, LPanic) /\
+  lstep_spec 0%Z Z.eqb ex_list (LGetValue Z 0) = (ex_list, LPanic) /\
+  lstep_spec 0%Z Z.eqb ex_list (LRemoveValues Z 3 1) = (ex_list, LPanic) /\
+  lstep_spec 0%Z Z.eqb ex_list (LInsertValue Z 4 7%Z) = (ex_list, LPanic).
+Proof. repeat split; vm_compute; reflexivity. Qed.
 
 Theorem C01_index_meaning :
   forall (n : nat) (i : Z) (k : nat),
@@ -26,15 +56,27 @@ Theorem C01_index_meaning :
           (- Z.of_nat n <= i <= -1)%Z /\ Z.of_nat k = (i + Z.of_nat n)%Z).
 Proof. exact pos_some. Qed.
 
+Example C01_index_meaning_example :
+  pos 3 (-1) = Some 2 /\ pos 3 2 = Some 1 /\ pos 3 (-3) = Some 0 /\ pos 3 3 = Some 2.
+Proof. repeat split; vm_compute; reflexivity. Qed.
+
 Theorem C01_index_panics_iff :
   forall (n : nat) (i : Z),
          pos n i = None <-> n = 0 \/ i = 0%Z \/ (i < - Z.of_nat n)%Z \/ (Z.of_nat n < i)%Z.
 Proof. exact pos_none. Qed.
 
+Example C01_index_panics_iff_example :
+  pos 3 0 = None /\ pos 3 4 = None /\ pos 3 (-4) = None /\ pos 0 1 = None.
+Proof. repeat split; vm_compute; reflexivity. Qed.
+
 Theorem C01_insert_panics_iff :
   forall (A : Type) (l : list A) (slot : nat) (v : A),
          insert_value l slot v = Panic <-> length l < slot.
 Proof. exact insert_value_panics_iff. Qed.
+
+Example C01_insert_panics_iff_example :
+  insert_value ex_list 4 7%Z = Panic /\ insert_value ex_list 3 7%Z = Ret [10; 20; 30; 7]%Z.
+Proof. split; vm_compute; reflexivity. Qed.
 
 Theorem C01_insert_locality :
   forall (A : Type) (l : list A) (slot : nat) (v : A) (l' : list A) (d : A) (j : nat),
@@ -42,6 +84,14 @@ Theorem C01_insert_locality :
          length l' = S (length l) /\
          nth j l' d = (if j <? slot then nth j l d else if j =? slot then v else nth (j - 1) l d).
 Proof. exact insert_value_nth. Qed.
+
+Example C01_insert_locality_example :
+  insert_value ex_list 1 99%Z = Ret [10; 99; 20; 30]%Z /\
+  (forall d j, nth j [10; 99; 20; 30]%Z d = (if j <? 1 then nth j ex_list d else if j =? 1 then 99%Z else nth (j - 1) ex_list d)).
+Proof.
+  split; [vm_compute; reflexivity|]. intros d j.
+  apply (C01_insert_locality Z ex_list 1 99%Z [10; 99; 20; 30]%Z d j). vm_compute; reflexivity.
+Qed.
 
 Theorem C01_insert_values_locality :
   forall (A : Type) (l : list A) (slot : nat) (vs l' : list A) (d : A) (j : nat),
@@ -53,6 +103,17 @@ Theorem C01_insert_values_locality :
           else if j <? slot + length vs then nth (j - slot) vs d else nth (j - length vs) l d).
 Proof. exact insert_values_nth. Qed.
 
+(* non-vacuity: the receiver as its own operand, and an empty operand *)
+Example C01_insert_values_locality_example :
+  insert_values ex_list 1 ex_list = Ret [10; 10; 20; 30; 20; 30]%Z /\
+  insert_values ex_list 2 [] = Ret ex_list /\ insert_values ex_list 4 [] = Panic /\
+  (forall d j, nth j [10; 10; 20; 30; 20; 30]%Z d =
+     (if j <? 1 then nth j ex_list d else if j <? 1 + 3 then nth (j - 1) ex_list d else nth (j - 3) ex_list d)).
+Proof.
+  split; [vm_compute; reflexivity|]. split; [vm_compute; reflexivity|]. split; [vm_compute; reflexivity|].
+  intros d j. apply (C01_insert_values_locality Z ex_list 1 ex_list [10; 10; 20; 30; 20; 30]%Z d j). vm_compute; reflexivity.
+Qed.
+
 Theorem C01_set_value_locality :
   forall (A : Type) (l : list A) (i : Z) (v : A) (l' : list A) (k : nat) (d : A) (j : nat),
          set_value l i v = Ret l' ->
@@ -60,6 +121,10 @@ Theorem C01_set_value_locality :
          length l' = length l /\
          nth j l' d = (if j =? k then if j <? length l then v else d else nth j l d).
 Proof. exact set_value_nth. Qed.
+
+Example C01_set_value_locality_example :
+  set_value ex_list (-1) 99%Z = Ret [10; 20; 99]%Z /\ pos (length ex_list) (-1) = Some 2.
+Proof. split; vm_compute; reflexivity. Qed.
 
 Theorem C01_set_values_locality :
   forall (A : Type) (l : list A) (i : Z) (src l' : list A) (k : nat) (d : A) (j : nat),
@@ -69,12 +134,23 @@ Theorem C01_set_values_locality :
          nth j l' d = (if (k <=? j) && (j <? k + length src) then nth (j - k) src d else nth j l d).
 Proof. exact set_values_nth. Qed.
 
+Example C01_set_values_locality_example :
+  set_values ex_list 2 [7; 8]%Z = Ret [10; 7; 8]%Z /\ pos (length ex_list) 2 = Some 1 /\
+  set_values ex_list (-3) ex_list = Ret ex_list.
+Proof. repeat split; vm_compute; reflexivity. Qed.
+
 Theorem C01_set_values_panics_iff :
   forall (A : Type) (l : list A) (i : Z) (src : list A),
          set_values l i src = Panic <->
          pos (length l) i = None \/
          (exists k : nat, pos (length l) i = Some k /\ length l < k + length src).
 Proof. exact set_values_panics_iff. Qed.
+
+(* non-vacuity: a block that does not fit panics; an empty block at a valid index is a no-op; at index 0 it panics *)
+Example C01_set_values_panics_iff_example :
+  set_values ex_list 3 [7; 8]%Z = Panic /\ pos (length ex_list) 3 = Some 2 /\
+  set_values ex_list 3 [] = Ret ex_list /\ set_values ex_list 0 [] = Panic.
+Proof. repeat split; vm_compute; reflexivity. Qed.
 
 Theorem C01_remove_value_locality :
   forall (A : Type) (zero : A) (l : list A) (i : Z) (v : A) (l' : list A) (k : nat),
@@ -83,36 +159,66 @@ Theorem C01_remove_value_locality :
          v = nth k l zero /\ l = firstn k l' ++ v :: skipn k l' /\ length l' = length l - 1.
 Proof. exact remove_value_spec. Qed.
 
+Example C01_remove_value_locality_example :
+  remove_value 0%Z ex_list (-3) = Ret (10%Z, [20; 30]%Z) /\ pos (length ex_list) (-3) = Some 0.
+Proof. split; vm_compute; reflexivity. Qed.
+
 Theorem C01_remove_values_locality :
   forall (A : Type) (l : list A) (i j : Z) (r l' : list A),
          remove_values l i j = Ret (r, l') ->
          exists a : nat, a <= length l' /\ l = firstn a l' ++ r ++ skipn a l'.
 Proof. exact remove_values_spec. Qed.
 
+(* non-vacuity: a proper range, the empty range (2,1) and the inverted range (3,1) *)
+Example C01_remove_values_locality_example :
+  remove_values ex_list 2 3 = Ret ([20; 30]%Z, [10]%Z) /\
+  remove_values ex_list 2 1 = Ret ([], ex_list) /\ remove_values ex_list 3 1 = Panic.
+Proof. repeat split; vm_compute; reflexivity. Qed.
+
 Theorem C01_get_values_locality :
   forall (A : Type) (l : list A) (i j : Z) (r : list A),
          get_values l i j = Ret r -> exists a : nat, l = firstn a l ++ r ++ skipn (a + length r) l.
 Proof. exact get_values_spec. Qed.
+
+Example C01_get_values_locality_example :
+  get_values ex_list (-2) (-1) = Ret [20; 30]%Z /\ get_values ex_list 2 1 = Ret [] /\ get_values ex_list 3 1 = Panic.
+Proof. repeat split; vm_compute; reflexivity. Qed.
 
 Theorem C01_insert_conserves :
   forall (A : Type) (l : list A) (slot : nat) (v : A) (l' : list A),
          insert_value l slot v = Ret l' -> Permutation.Permutation l' (v :: l).
 Proof. exact insert_value_perm. Qed.
 
+Example C01_insert_conserves_example :
+  insert_value ex_list 0 99%Z = Ret [99; 10; 20; 30]%Z /\ Permutation.Permutation [99; 10; 20; 30]%Z (99%Z :: ex_list).
+Proof. split; [vm_compute; reflexivity|]. apply (C01_insert_conserves Z ex_list 0). vm_compute; reflexivity. Qed.
+
 Theorem C01_insert_values_conserves :
   forall (A : Type) (l : list A) (slot : nat) (vs l' : list A),
          insert_values l slot vs = Ret l' -> Permutation.Permutation l' (vs ++ l).
 Proof. exact insert_values_perm. Qed.
+
+Example C01_insert_values_conserves_example :
+  insert_values ex_list 3 ex_list = Ret (ex_list ++ ex_list) /\ Permutation.Permutation (ex_list ++ ex_list) (ex_list ++ ex_list).
+Proof. split; [vm_compute; reflexivity|]. apply (C01_insert_values_conserves Z ex_list 3). vm_compute; reflexivity. Qed.
 
 Theorem C01_remove_conserves :
   forall (A : Type) (zero : A) (l : list A) (i : Z) (v : A) (l' : list A),
          remove_value zero l i = Ret (v, l') -> Permutation.Permutation l (v :: l').
 Proof. exact remove_value_perm. Qed.
 
+Example C01_remove_conserves_example :
+  remove_value 0%Z ex_list 2 = Ret (20%Z, [10; 30]%Z) /\ Permutation.Permutation ex_list (20%Z :: [10; 30]%Z).
+Proof. split; [vm_compute; reflexivity|]. apply (C01_remove_conserves Z 0%Z ex_list 2). vm_compute; reflexivity. Qed.
+
 Theorem C01_remove_values_conserves :
   forall (A : Type) (l : list A) (i j : Z) (r l' : list A),
          remove_values l i j = Ret (r, l') -> Permutation.Permutation l (r ++ l').
 Proof. exact remove_values_perm. Qed.
+
+Example C01_remove_values_conserves_example :
+  remove_values ex_dup (-3) 3 = Ret ([20; 30]%Z, [10; 20]%Z) /\ Permutation.Permutation ex_dup ([20; 30]%Z ++ [10; 20]%Z).
+Proof. split; [vm_compute; reflexivity|]. apply (C01_remove_values_conserves Z ex_dup (-3) 3). vm_compute; reflexivity. Qed.
 
 Theorem C01_get_index_first_match :
   forall (A : Type) (eqb : A -> A -> bool) (l : list A) (v : A) (k : nat),
@@ -122,10 +228,210 @@ Theorem C01_get_index_first_match :
          (forall (j : nat) (d : A), j < k -> eqb (nth j l d) v = false).
 Proof. exact get_index_spec. Qed.
 
+(* non-vacuity: 20 occurs at ordinals 2 and 4 of [10;20;30;20]: the first is reported *)
+Example C01_get_index_first_match_example : get_index Z.eqb ex_dup 20%Z = 2.
+Proof. vm_compute; reflexivity. Qed.
+
 Theorem C01_get_index_absent :
   forall (A : Type) (eqb : A -> A -> bool) (l : list A) (v : A),
          get_index eqb l v = 0 <-> (forall x : A, In x l -> eqb x v = false).
 Proof. exact get_index_zero. Qed.
+
+Example C01_get_index_absent_example :
+  get_index Z.eqb ex_dup 99%Z = 0 /\ (forall x : Z, In x ex_dup -> Z.eqb x 99%Z = false).
+Proof. split; [vm_compute; reflexivity|]. apply (C01_get_index_absent Z Z.eqb ex_dup 99%Z). vm_compute; reflexivity. Qed.
+
+Theorem C01_append_locality :
+  forall (A : Type) (l : list A) (v d : A) (j : nat),
+         length (append_value l v) = S (length l) /\
+         nth j (append_value l v) d =
+         (if j <? length l then nth j l d else if j =? length l then v else d).
+Proof. exact append_value_nth. Qed.
+
+Theorem C01_append_values_locality :
+  forall (A : Type) (l src : list A) (d : A) (j : nat),
+         length (append_values l src) = length l + length src /\
+         nth j (append_values l src) d =
+         (if j <? length l then nth j l d else nth (j - length l) src d).
+Proof. exact append_values_nth. Qed.
+
+Theorem C01_append_conserves :
+  forall (A : Type) (l : list A) (v : A), Permutation.Permutation (append_value l v) (v :: l).
+Proof. exact append_value_perm. Qed.
+
+Theorem C01_append_values_conserves :
+  forall (A : Type) (l src : list A), Permutation.Permutation (append_values l src) (src ++ l).
+Proof. exact append_values_perm. Qed.
+
+Theorem C01_set_value_conserves :
+  forall (A : Type) (zero : A) (l : list A) (i : Z) (v : A) (l' : list A) (k : nat),
+         set_value l i v = Ret l' ->
+         pos (length l) i = Some k -> Permutation.Permutation (nth k l zero :: l') (v :: l).
+Proof. exact set_value_perm. Qed.
+
+(* non-vacuity: the overwritten 30 is the only value lost, 99 the only one gained *)
+Example C01_set_value_conserves_example :
+  set_value ex_list (-1) 99%Z = Ret [10; 20; 99]%Z /\ pos (length ex_list) (-1) = Some 2 /\
+  Permutation.Permutation (nth 2 ex_list 0%Z :: [10; 20; 99]%Z) (99%Z :: ex_list).
+Proof.
+  split; [vm_compute; reflexivity|]. split; [vm_compute; reflexivity|].
+  apply (C01_set_value_conserves Z 0%Z ex_list (-1) 99%Z); vm_compute; reflexivity.
+Qed.
+
+Theorem C01_set_values_conserves :
+  forall (A : Type) (l : list A) (i : Z) (src l' : list A) (k : nat),
+         set_values l i src = Ret l' ->
+         pos (length l) i = Some k ->
+         Permutation.Permutation (firstn (length src) (skipn k l) ++ l') (src ++ l).
+Proof. exact set_values_perm. Qed.
+
+Example C01_set_values_conserves_example :
+  set_values ex_list 2 [7; 8]%Z = Ret [10; 7; 8]%Z /\
+  Permutation.Permutation (firstn 2 (skipn 1 ex_list) ++ [10; 7; 8]%Z) ([7; 8]%Z ++ ex_list).
+Proof.
+  split; [vm_compute; reflexivity|].
+  apply (C01_set_values_conserves Z ex_list 2 [7; 8]%Z [10; 7; 8]%Z 1); vm_compute; reflexivity.
+Qed.
+
+Theorem C01_get_value_exact :
+  forall (A : Type) (zero : A) (l : list A) (i : Z) (v : A),
+         get_value zero l i = Ret v ->
+         exists k : nat, pos (length l) i = Some k /\ k < length l /\ v = nth k l zero.
+Proof. exact get_value_exact. Qed.
+
+Theorem C01_get_values_exact :
+  forall (A : Type) (l : list A) (i j : Z) (r : list A),
+         get_values l i j = Ret r ->
+         exists a b : nat,
+           pos (length l) i = Some a /\
+           pos (length l) j = Some b /\
+           a <= S b /\
+           S b <= length l /\
+           r = firstn (S b - a) (skipn a l) /\
+           length r = S b - a /\
+           (forall (k : nat) (d : A), k < length r -> nth k r d = nth (a + k) l d).
+Proof. exact get_values_exact. Qed.
+
+Theorem C01_remove_values_exact :
+  forall (A : Type) (l : list A) (i j : Z) (r l' : list A),
+         remove_values l i j = Ret (r, l') ->
+         exists a b : nat,
+           pos (length l) i = Some a /\
+           pos (length l) j = Some b /\
+           a <= S b /\
+           S b <= length l /\
+           r = firstn (S b - a) (skipn a l) /\
+           l' = firstn a l ++ skipn (S b) l /\
+           length l' = length l - (S b - a) /\
+           (forall (k : nat) (d : A),
+            nth k l' d = (if k <? a then nth k l d else nth (k + (S b - a)) l d)).
+Proof. exact remove_values_exact. Qed.
+
+Example C01_remove_values_exact_example :
+  remove_values ex_dup 2 (-2) = Ret ([20; 30]%Z, [10; 20]%Z) /\
+  pos (length ex_dup) 2 = Some 1 /\ pos (length ex_dup) (-2) = Some 2.
+Proof. repeat split; vm_compute; reflexivity. Qed.
+
+Theorem C01_get_value_panics_iff :
+  forall (A : Type) (zero : A) (l : list A) (i : Z),
+         get_value zero l i = Panic <-> pos (length l) i = None.
+Proof. exact get_value_panics_iff. Qed.
+
+Theorem C01_set_value_panics_iff :
+  forall (A : Type) (l : list A) (i : Z) (v : A),
+         set_value l i v = Panic <-> pos (length l) i = None.
+Proof. exact set_value_panics_iff. Qed.
+
+Theorem C01_remove_value_panics_iff :
+  forall (A : Type) (zero : A) (l : list A) (i : Z),
+         remove_value zero l i = Panic <-> pos (length l) i = None.
+Proof. exact remove_value_panics_iff. Qed.
+
+Theorem C01_get_values_panics_iff :
+  forall (A : Type) (l : list A) (i j : Z),
+         get_values l i j = Panic <-> range_bad (length l) i j.
+Proof. exact get_values_panics_iff. Qed.
+
+Example C01_get_values_panics_iff_example :
+  get_values ex_list 3 1 = Panic /\ range_bad (length ex_list) 3 1 /\ get_values ex_list 1 4 = Panic /\ get_values ex_list 0 2 = Panic.
+Proof.
+  split; [vm_compute; reflexivity|]. split; [|split; vm_compute; reflexivity].
+  apply (C01_get_values_panics_iff Z ex_list 3 1). vm_compute; reflexivity.
+Qed.
+
+Theorem C01_remove_values_panics_iff :
+  forall (A : Type) (l : list A) (i j : Z),
+         remove_values l i j = Panic <-> range_bad (length l) i j.
+Proof. exact remove_values_panics_iff. Qed.
+
+Theorem C01_insert_values_panics_iff :
+  forall (A : Type) (l : list A) (slot : nat) (vs : list A),
+         insert_values l slot vs = Panic <-> length l < slot.
+Proof. exact insert_values_panics_iff. Qed.
+
+Theorem C01_reads_do_not_modify :
+  forall (A : Type) (zero : A) (eqb : A -> A -> bool) (l : list A) (o : lop A),
+         is_read A o = true -> fst (lstep_spec zero eqb l o) = l.
+Proof. exact reads_do_not_modify. Qed.
+
+Example C01_reads_do_not_modify_example :
+  is_read Z (LGetValues Z 1 (-1)) = true /\ lstep_spec 0%Z Z.eqb ex_list (LGetValues Z 1 (-1)) = (ex_list, LVals Z ex_list) /\
+  is_read Z (LContainsAny Z None) = true /\ lstep_spec 0%Z Z.eqb ex_list (LContainsAny Z None) = (ex_list, LBool Z true).
+Proof. repeat split; vm_compute; reflexivity. Qed.
+
+Theorem C01_views_agree :
+  forall (A : Type) (zero : A) (eqb : A -> A -> bool) (l : list A),
+         lstep_spec zero eqb l (LAsArray A) = (l, LVals A l) /\
+         lstep_spec zero eqb l (LGetSize A) = (l, LNat A (length l)) /\
+         lstep_spec zero eqb l (LIsEmpty A) = (l, LBool A (length l =? 0)).
+Proof. exact views_agree. Qed.
+
+Theorem C01_size_of_step :
+  forall (A : Type) (zero : A) (eqb : A -> A -> bool) (l : list A) 
+           (o : lop A) (l' : list A) (ob : lobs A),
+         lstep_spec zero eqb l o = (l', ob) -> ob <> LPanic -> length l' = size_after A l o.
+Proof. exact size_of_step. Qed.
+
+(* non-vacuity: sizes after a receiver-aliased insertion (3+3) and after removing the range (2,-2) of six *)
+Example C01_size_of_step_example :
+  lstep_spec 0%Z Z.eqb ex_list (LInsertValues Z 1 None) = ([10; 10; 20; 30; 20; 30]%Z, LUnit) /\
+  size_after Z ex_list (LInsertValues Z 1 None) = 6 /\
+  size_after Z [10; 10; 20; 30; 20; 30]%Z (LRemoveValues Z 2 (-2)) = 2.
+Proof. repeat split; vm_compute; reflexivity. Qed.
+
+Theorem C01_self_operand_as_copy :
+  forall (A : Type) (zero : A) (eqb : A -> A -> bool) (l : list A),
+         (forall slot : nat,
+          lstep_impl zero eqb l (LInsertValues A slot None) =
+          lstep_spec zero eqb l (LInsertValues A slot (Some l))) /\
+         lstep_impl zero eqb l (LAppendValues A None) =
+         lstep_spec zero eqb l (LAppendValues A (Some l)) /\
+         (forall i : Z,
+          lstep_impl zero eqb l (LSetValues A i None) =
+          lstep_spec zero eqb l (LSetValues A i (Some l))) /\
+         lstep_impl zero eqb l (LContainsAny A None) =
+         lstep_spec zero eqb l (LContainsAny A (Some l)) /\
+         lstep_impl zero eqb l (LContainsAll A None) =
+         lstep_spec zero eqb l (LContainsAll A (Some l)).
+Proof. exact self_operand_as_copy. Qed.
+
+Theorem C01_self_insert_values :
+  forall (A : Type) (zero : A) (eqb : A -> A -> bool) (l : list A) (slot : nat),
+         slot <= length l ->
+         lstep_spec zero eqb l (LInsertValues A slot None) =
+         (firstn slot l ++ l ++ skipn slot l, LUnit).
+Proof. exact self_insert_values. Qed.
+
+Example C01_self_insert_values_example :
+  lstep_impl 0%Z Z.eqb ex_list (LInsertValues Z 1 None) = ([10; 10; 20; 30; 20; 30]%Z, LUnit) /\
+  lstep_impl 0%Z Z.eqb ex_list (LInsertValues Z 1 (Some ex_list)) = ([10; 10; 20; 30; 20; 30]%Z, LUnit) /\
+  lstep_impl 0%Z Z.eqb ex_list (LAppendValues Z None) = (ex_list ++ ex_list, LUnit).
+Proof. repeat split; vm_compute; reflexivity. Qed.
+
+Theorem C01_self_append_values :
+  forall (A : Type) (zero : A) (eqb : A -> A -> bool) (l : list A),
+         lstep_spec zero eqb l (LAppendValues A None) = (l ++ l, LUnit).
+Proof. exact self_append_values. Qed.
 
 
 Print Assumptions C01_history_refinement.
@@ -148,3 +454,24 @@ Print Assumptions C01_remove_conserves.
 Print Assumptions C01_remove_values_conserves.
 Print Assumptions C01_get_index_first_match.
 Print Assumptions C01_get_index_absent.
+Print Assumptions C01_append_locality.
+Print Assumptions C01_append_values_locality.
+Print Assumptions C01_append_conserves.
+Print Assumptions C01_append_values_conserves.
+Print Assumptions C01_set_value_conserves.
+Print Assumptions C01_set_values_conserves.
+Print Assumptions C01_get_value_exact.
+Print Assumptions C01_get_values_exact.
+Print Assumptions C01_remove_values_exact.
+Print Assumptions C01_get_value_panics_iff.
+Print Assumptions C01_set_value_panics_iff.
+Print Assumptions C01_remove_value_panics_iff.
+Print Assumptions C01_get_values_panics_iff.
+Print Assumptions C01_remove_values_panics_iff.
+Print Assumptions C01_insert_values_panics_iff.
+Print Assumptions C01_reads_do_not_modify.
+Print Assumptions C01_views_agree.
+Print Assumptions C01_size_of_step.
+Print Assumptions C01_self_operand_as_copy.
+Print Assumptions C01_self_insert_values.
+Print Assumptions C01_self_append_values.
